@@ -159,17 +159,17 @@ def run_stream(workdir, header, case_lines, proj, oracles, sr, tag, spec_fields=
 # ---------------------------------------------------------------- shrinking
 
 
-def differs_cmd(prop):
-    return "%s --differs %s" % (os.path.join(core.VERIF, "check"), prop)
+def differs_cmd(prop, visible=False):
+    return "%s %s %s" % (os.path.join(core.VERIF, "check"), "--differs-visible" if visible else "--differs", prop)
 
 
-def shrink(workdir, header, case_line, prop, idx):
+def shrink(workdir, header, case_line, prop, idx, visible=False, maxtests=250):
     inp = os.path.join(workdir, "shrink_in_%d.txt" % idx)
     out = os.path.join(workdir, "shrink_out_%d.txt" % idx)
     open(inp, "w").write(header + "\n" + case_line + "\n")
     try:
-        rc, o, dt = core.run([os.path.join(core.BIN, "pvshrink"), "-in", inp, "-out", out, "-test", differs_cmd(prop),
-                              "-max", "250"], check=False, timeout=900)
+        rc, o, dt = core.run([os.path.join(core.BIN, "pvshrink"), "-in", inp, "-out", out, "-test", differs_cmd(prop, visible),
+                              "-max", str(maxtests)], check=False, timeout=900)
         if rc == 0 and os.path.exists(out):
             h, cl = core.read_cases(out)
             if cl:
